@@ -84,11 +84,11 @@ static void check_tp(const char* dname, long long count, const cctz::time_zone& 
     r.count("evaluations");
     if (got != exp) { r.violation(std::string("C18:format-E*f:") + dname, std::string(dname) + " count " + std::to_string(count) + ": %E*f|%S gives '" + got + "' expected '" + exp + "'", ra); return; }
   }
-  static const int ns[] = {0, 1, 2, 3, 6, 9, 12, 14, 15, 16, 18};
+  static const int ns[] = {0, 1, 2, 3, 6, 9, 12, 14, 15, 16, 18, 19, 25, 33, 34, 100};  // beyond 18 the library renders 18 digits
   for (int n : ns) {
     const std::string f1 = "%E" + std::to_string(n) + "S", f2 = "%E" + std::to_string(n) + "f";
     const std::string g1 = cctz::format(f1, tp, tz), g2 = cctz::format(f2, tp, tz);
-    const std::string d = frac_digits(fs, n);
+    const std::string d = frac_digits(fs, n > 18 ? 18 : n);
     const std::string e1 = two(want.ss) + (n ? "." + d : ""), e2 = d;
     r.count("evaluations", 2);
     if (g1 != e1 || g2 != e2) { r.violation(std::string("C18:format-E#:") + dname, std::string(dname) + " count " + std::to_string(count) + ": " + f1 + " gives '" + g1 + "' expected '" + e1 + "'; " + f2 + " gives '" + g2 + "' expected '" + e2 + "'", ra); return; }
